@@ -22,7 +22,7 @@ BOUNDS = {
 }
 STUBS = ["none"]
 ASSUMPTIONS = ["date-valued properties are not exercised (datetime is C)"]
-OUTSIDE = ["a WWW-Authenticate challenge with neither token nor parameters", "datetimes with a non-UTC offset in the date properties", "content_security_policy view (same CallbackDict mechanism as cache_control)", "longer histories"]
+OUTSIDE = ["a WWW-Authenticate challenge with neither token nor parameters", "datetimes with a non-UTC offset in the date properties", "longer histories"]
 
 SET_PROPS = ["vary", "allow", "content_language"]
 SET_HEADER = {"vary": "Vary", "allow": "Allow", "content_language": "Content-Language"}
@@ -195,8 +195,11 @@ def body_www_authenticate(I, X, ops=("set-param", "set-type"), start="params"):
             I.setattr(w, "type", "basic")
             model["type"] = "basic"
         elif op == "set-token":
-            I.setattr(w, "token", pconcat("k", x))
-            model["token"] = pconcat("k", x)
+            # a token68 character (RFC 9110): letters, digits and - . _ ~ + /
+            tk = X.str(f"tk{j}", 1, minlen=1, maxcp=0x7F)
+            X.assume(pall_in(tk, [(0x30, 0x39), (0x41, 0x5A), (0x61, 0x7A), 0x2D, 0x2E, 0x5F, 0x7E, 0x2B, 0x2F]))
+            I.setattr(w, "token", pconcat("k", tk, "z"))
+            model["token"] = pconcat("k", tk, "z")
         elif op == "set-param":
             I.call(w.__setitem__, ("qop", x))
             model["params"]["qop"] = x
@@ -287,6 +290,60 @@ def body_scalar(I, X, prop="content_length"):
     return ok, {"header": hdr}
 
 
+CSP_OPS = ["set-default", "set-script", "del-default", "none-default", "clear", "assign-none"]
+
+
+def body_csp(I, X, ops=("set-default", "del-default"), report_only=False):
+    """content_security_policy (and its report-only twin) views: the header is the
+    serialisation of the live view after every mutation, absent when the view is empty, and the
+    other of the two headers is never touched"""
+    from werkzeug.sansio.response import Response
+
+    resp = Response()
+    prop = "content_security_policy_report_only" if report_only else "content_security_policy"
+    name = "Content-Security-Policy-Report-Only" if report_only else "Content-Security-Policy"
+    other = "Content-Security-Policy" if report_only else "Content-Security-Policy-Report-Only"
+    I.call(resp.headers.__setitem__, (other, "img-src z"))
+    model = {}
+    ok = True
+    trace = []
+    for j, op in enumerate(ops):
+        x = sym_char(X, f"x{j}")
+        view = I.getattr(resp, prop)
+        if op == "set-default":
+            I.setattr(view, "default_src", x)
+            model["default-src"] = x
+        elif op == "set-script":
+            I.setattr(view, "script_src", x)
+            model["script-src"] = x
+        elif op == "del-default":
+            I.call(view.pop, ("default-src", None))
+            model.pop("default-src", None)
+        elif op == "none-default":
+            I.setattr(view, "default_src", None)
+            model.pop("default-src", None)
+        elif op == "clear":
+            I.call(view.clear, ())
+            model = {}
+        elif op == "assign-none":
+            I.setattr(resp, prop, None)
+            model = {}
+        hdr = I.call(resp.headers.get, (name,))
+        exp = None
+        if model:
+            exp = ""
+            for i, (k, v) in enumerate(model.items()):
+                exp = pconcat(exp, "; " if i else "", k, " ", v)
+        ok = pand(ok, (hdr is None) if exp is None else (hdr is not None and peq(hdr, exp)))
+        ok = pand(ok, I.call(resp.headers.get, (other,)) == "img-src z")
+        fresh = dict(I.dict_items(I.getattr(resp, prop)))
+        ok = pand(ok, len(fresh) == len(model))
+        for k, v in model.items():
+            ok = pand(ok, k in fresh and peq(fresh.get(k), v))
+        trace.append(op)
+    return ok, {"trace": trace, "header": hdr}
+
+
 def body_mimetype_params(I, X, key="x_foo", n=1):
     """the mimetype_params view writes back exactly the parameter names it holds (also names
     with an underscore); a fresh view equals the held one"""
@@ -363,6 +420,10 @@ def obligations(tier, seed):
     for ops in itertools.product(["set", "unset", "set-length-none", "set-unsatisfied"], repeat=k):
         out.append({"name": f"content_range[{'+'.join(ops)}]", "body": "body_content_range", "params": {"ops": list(ops)},
                     "opts": {"budget_s": 600, "ctx": ctx}, "witness": ops[:2] == ("set", "unset")})
+    for ro in (False, True):
+        for ops in itertools.product(CSP_OPS, repeat=k):
+            out.append({"name": f"csp[report_only={ro},{'+'.join(ops)}]", "body": "body_csp", "params": {"ops": list(ops), "report_only": ro},
+                        "opts": {"budget_s": 600, "ctx": ctx}})
     for key in ("x_foo", "a-b", "charset"):
         out.append({"name": f"mimetype_params[{key}]", "body": "body_mimetype_params", "params": {"key": key, "n": 2},
                     "opts": {"budget_s": 600, "ctx": ctx}})
